@@ -13,12 +13,12 @@ Reading of "the pruned point" (DESIGN §3.5): `Prune(p)` removes the entry AT `p
 asserts it and `PruneRoundStorage` relies on it), so the pruned point is the smallest retained start. The stricter
 reading is `prune_preserves_strict_fails` (information only).
 
-FULL STATEMENT (false of the code, see `get_is_floor_fails_after_prune_all`):
-  for every history `ops` of puts (starts ≥ 0) and prunes, every `r`:
-  `get (run new ops) r` = the entity of the greatest start `≤ r` stored in `run new ops`.
-PROVED (`_partial`): the same for every history in which no prune removes the newest start
-(`reachable_good_partial` + `get_is_floor`); the field `max` is never lowered, so after a prune at the newest start
-the storage answers through a stale `max`.
+The full statement — for every history `ops` of puts (starts ≥ 0) and prunes and every `r`, `get (run new ops) r` is the
+entity of the greatest stored start `≤ r` — is `reachable_good` + `get_is_floor`. It was false of the code before repo commit
+582e5a1 (`Prune` did not reset `max`; finding C40:stale-max-after-prune, now fixed): `get_after_prune_all_repaired` is the
+former failing history, answered correctly. What remains necessary: starts `≥ 0` (`-1` is the code's "not found" value,
+`negative_start_quirk`). A stored start of `0` with `max = 0` is fine: the `max > 0` guard sends the lookup through the
+scanning loop, which finds it (`start_zero_ok`).
 -/
 namespace ZChain.MagicBlocks
 
@@ -30,8 +30,9 @@ def Inv (s : Store) : Prop :=
 /-- starting rounds are non-negative (the code uses `-1` as "not found"). -/
 def NonNeg (s : Store) : Prop := ∀ x ∈ s.rounds, 0 ≤ x
 
-/-- the `max` field names the newest stored start. -/
-def MaxOK (s : Store) : Prop := (∀ x ∈ s.rounds, x ≤ s.max) ∧ (s.rounds ≠ [] → s.max ∈ s.rounds)
+/-- the `max` field names the newest stored start (and is 0 for an empty storage). -/
+def MaxOK (s : Store) : Prop :=
+  (∀ x ∈ s.rounds, x ≤ s.max) ∧ (s.rounds ≠ [] → s.max ∈ s.rounds) ∧ (s.rounds = [] → s.max = 0)
 
 def Good (s : Store) : Prop := Inv s ∧ NonNeg s ∧ MaxOK s
 
@@ -97,10 +98,11 @@ theorem keys_delAll (ks : List Int) (m : List (Int × Ent)) (h : (m.map Prod.fst
   | cons a ks ih => exact ih _ (keys_mapDel a m h).1
 
 /-- what `Prune` does, in one statement (**prune_keeps_newest**): it succeeds exactly when `p` is a stored start, and
-then exactly the starts `≤ p` (including `p`) leave; every retained start keeps its entity; `max` is untouched. -/
+then exactly the starts `≤ p` (including `p`) leave; every retained start keeps its entity; `max` becomes the last
+retained start (0 when nothing is left). -/
 theorem prune_spec (s : Store) (p : Int) (h : Inv s) :
     (p ∉ s.rounds → prune s p = none) ∧
-    (p ∈ s.rounds → ∃ s', prune s p = some s' ∧ s'.max = s.max ∧
+    (p ∈ s.rounds → ∃ s', prune s p = some s' ∧ s'.max = lastOr 0 s'.rounds ∧
       (∀ x, x ∈ s'.rounds ↔ x ∈ s.rounds ∧ p < x) ∧
       (∀ k, mapGet k s'.items = if p < k then mapGet k s.items else none) ∧ Inv s') := by
   obtain ⟨hasc, hkeys, hnd⟩ := h
@@ -140,7 +142,7 @@ theorem prune_spec (s : Store) (p : Int) (h : Inv s) :
             · exact hka hk
             · have := hb k hk; omega
           exact keys_none hkeys hk
-    refine ⟨{ s with items := delAll a s.items, rounds := b }, ?_, rfl, hmem, hget, ?_, ?_, ?_⟩
+    refine ⟨{ max := lastOr 0 b, items := delAll a s.items, rounds := b }, ?_, rfl, hmem, hget, ?_, ?_, ?_⟩
     · unfold prune; rw [hv]; simp only; rw [hab]
     · show Asc b
       have : Asc (a ++ b) := hl ▸ hasc
@@ -195,7 +197,7 @@ theorem get_is_floor (s : Store) (hg : Good s) (r : Int) :
     ((∀ x ∈ s.rounds, r < x) → get s r = none) ∧
     (∀ x ∈ s.rounds, x ≤ r → (∀ y ∈ s.rounds, y ≤ r → y ≤ x) →
       get s r = mapGet x s.items ∧ (mapGet x s.items).isSome) := by
-  obtain ⟨⟨hasc, hkeys, _⟩, hnn, hmax1, hmax2⟩ := hg
+  obtain ⟨⟨hasc, hkeys, _⟩, hnn, hmax1, hmax2, hmax3⟩ := hg
   have hnone : ∀ k, k ∉ s.rounds → mapGet k s.items = none := by
     intro k hk
     exact keys_none hkeys hk
@@ -231,7 +233,7 @@ theorem get_is_floor (s : Store) (hg : Good s) (r : Int) :
 theorem getLatest_is_greatest (s : Store) (hg : Good s) (hne : s.rounds ≠ []) :
     s.max ∈ s.rounds ∧ (∀ x ∈ s.rounds, x ≤ s.max) ∧
     getLatest s = mapGet s.max s.items ∧ (mapGet s.max s.items).isSome := by
-  obtain ⟨hi, hnn, hmax1, hmax2⟩ := hg
+  obtain ⟨hi, hnn, hmax1, hmax2, hmax3⟩ := hg
   have hm := hmax2 hne
   have hsome := (hi.2.1 s.max).mp hm
   refine ⟨hm, hmax1, ?_, hsome⟩
@@ -290,7 +292,7 @@ theorem findRoundIndex_spec (s : Store) (hg : Good s) (r : Int) :
     ((∀ x ∈ s.rounds, r < x) → findRoundIndex s r = -1) ∧
     (∀ x ∈ s.rounds, x ≤ r → (∀ y ∈ s.rounds, y ≤ r → y ≤ x) →
       ∃ n : Nat, s.rounds[n]? = some x ∧ findRoundIndex s r = n) := by
-  obtain ⟨⟨hasc, hkeys, _⟩, hnn, hmax1, hmax2⟩ := hg
+  obtain ⟨⟨hasc, hkeys, _⟩, hnn, hmax1, hmax2, hmax3⟩ := hg
   constructor
   · intro hall
     unfold findRoundIndex
@@ -372,9 +374,8 @@ theorem getPrevMagicBlock_spec (s : Store) (hg : Good s) (rn : Int) :
 
 /-! ## which histories keep the storage good -/
 
-theorem put_good (s : Store) (e : Ent) (r : Int) (hg : Good s) (hr : 0 ≤ r)
-    (hfresh : s.rounds = [] → s.max ≤ r) : Good (put s e r) := by
-  obtain ⟨hi, hnn, hmax1, hmax2⟩ := hg
+theorem put_good (s : Store) (e : Ent) (r : Int) (hg : Good s) (hr : 0 ≤ r) : Good (put s e r) := by
+  obtain ⟨hi, hnn, hmax1, hmax2, hmax3⟩ := hg
   have hi' := put_inv s e r hi
   have hmem : ∀ y, y ∈ (put s e r).rounds ↔ y = r ∨ y ∈ s.rounds := by
     intro y
@@ -389,7 +390,7 @@ theorem put_good (s : Store) (e : Ent) (r : Int) (hg : Good s) (hr : 0 ≤ r)
         · exact h
     · exact mem_putToSlice _ _ _
   have hmaxv : (put s e r).max = if r > s.max then r else s.max := rfl
-  refine ⟨hi', ?_, ?_, ?_⟩
+  refine ⟨hi', ?_, ?_, ?_, ?_⟩
   · intro y hy
     rcases (hmem y).mp hy with rfl | hy
     · exact hr
@@ -405,86 +406,73 @@ theorem put_good (s : Store) (e : Ent) (r : Int) (hg : Good s) (hr : 0 ≤ r)
     · simp [hgt]
     · simp only [hgt, if_false]
       by_cases he : s.rounds = []
-      · have := hfresh he
+      · have := hmax3 he
         left; omega
       · exact Or.inr (hmax2 he)
+  · intro he
+    have : r ∈ (put s e r).rounds := (hmem r).mpr (Or.inl rfl)
+    rw [he] at this; cases this
 
-/-- a prune strictly below the newest start keeps the storage good and non-empty. -/
-theorem prune_good (s s' : Store) (p : Int) (hg : Good s) (hp : p < s.max) (h : prune s p = some s') :
-    Good s' ∧ s'.rounds ≠ [] := by
-  obtain ⟨hi, hnn, hmax1, hmax2⟩ := hg
+/-- every prune keeps the storage good (also a prune at the newest start, which empties it). -/
+theorem prune_good (s s' : Store) (p : Int) (hg : Good s) (h : prune s p = some s') : Good s' := by
+  obtain ⟨hi, hnn, hmax1, hmax2, hmax3⟩ := hg
   have hpm : p ∈ s.rounds := by
     by_cases hpm : p ∈ s.rounds
     · exact hpm
     · rw [(prune_spec s p hi).1 hpm] at h; cases h
   obtain ⟨s'', hs'', hmx, hmem, hget, hi'⟩ := (prune_spec s p hi).2 hpm
   rw [h] at hs''; cases hs''
-  have hne : s.rounds ≠ [] := fun e => by rw [e] at hpm; cases hpm
-  have hm' : s'.max ∈ s'.rounds := by rw [hmem, hmx]; exact ⟨hmax2 hne, hp⟩
-  refine ⟨⟨hi', ?_, ?_, fun _ => hm'⟩, fun e => by rw [e] at hm'; cases hm'⟩
+  refine ⟨hi', ?_, ?_, ?_, ?_⟩
   · intro y hy; exact hnn y ((hmem y).mp hy).1
-  · intro y hy; rw [hmx]; exact hmax1 y ((hmem y).mp hy).1
+  · intro y hy; rw [hmx]; exact le_lastOr hi'.1 0 y hy
+  · intro hne
+    rw [hmx]
+    rcases lastOr_mem 0 s'.rounds with ⟨he, _⟩ | hm
+    · exact absurd he hne
+    · exact hm
+  · intro he; rw [hmx, he]; rfl
 
-/-- histories in the domain of the `_partial` theorem: starts are non-negative and no prune is at (or above) the
-value of `max`, i.e. the newest start is never pruned — which is how `Chain.PruneRoundStorage` calls it (it keeps
-the newest `k ≥ 1` entries). -/
-def Admissible : Store → List Op → Prop
-  | _, [] => True
-  | s, .put r e :: ops => 0 ≤ r ∧ Admissible (put s e r) ops
-  | s, .prune p :: ops => p < s.max ∧ Admissible (step s (.prune p)) ops
+/-- the domain: every stored start is non-negative (prunes are unrestricted). -/
+def NonNegOps (ops : List Op) : Prop := ∀ r e, Op.put r e ∈ ops → 0 ≤ r
 
-/-- **reachable_good_partial**: every admissible history leaves a good storage — so `get_is_floor`,
-`getMagicBlock_spec`, `getLatest_is_greatest`, `findRoundIndex_spec` apply to it. -/
-theorem reachable_good_partial (ops : List Op) (h : Admissible new ops) : Good (run new ops) := by
-  have : ∀ (ops : List Op) s, Good s → (s.rounds = [] → s.max = 0) → Admissible s ops →
-      Good (run s ops) := by
+/-- **reachable_good**: EVERY history of puts with non-negative starts and prunes at any point leaves a good storage —
+so `get_is_floor`, `getMagicBlock_spec`, `getLatest_is_greatest`, `findRoundIndex_spec`, `getPrevMagicBlock_spec` apply
+to it. -/
+theorem reachable_good (ops : List Op) (h : NonNegOps ops) : Good (run new ops) := by
+  have : ∀ (ops : List Op) s, Good s → NonNegOps ops → Good (run s ops) := by
     intro ops
     induction ops with
-    | nil => intro s hg _ _; exact hg
+    | nil => intro s hg _; exact hg
     | cons op ops ih =>
-      intro s hg hz ha
+      intro s hg ha
+      have ha' : NonNegOps ops := fun r e hm => ha r e (List.mem_cons_of_mem _ hm)
       cases op with
       | put r e =>
-        obtain ⟨hr, ha'⟩ := ha
-        have hg' := put_good s e r hg hr (fun he => by rw [hz he]; exact hr)
-        refine ih _ hg' ?_ ha'
-        intro he
-        -- after a put the slice is not empty
-        exfalso
-        have : r ∈ (put s e r).rounds := by
-          unfold put; simp only
-          split
-          · rename_i hf; exact (hg.1.2.1 r).mpr hf
-          · exact (mem_putToSlice _ _ _).mpr (Or.inl rfl)
-        have he' : (put s e r).rounds = [] := he
-        rw [he'] at this; cases this
+        exact ih _ (put_good s e r hg (ha r e (List.mem_cons_self ..))) ha'
       | prune p =>
-        obtain ⟨hp, ha'⟩ := ha
         show Good (run (step s (.prune p)) ops)
         cases hpr : prune s p with
         | none =>
           have : step s (.prune p) = s := by show (prune s p).getD s = s; rw [hpr]; rfl
-          rw [this] at ha' ⊢
-          exact ih s hg hz ha'
+          rw [this]; exact ih s hg ha'
         | some s' =>
           have : step s (.prune p) = s' := by show (prune s p).getD s = s'; rw [hpr]; rfl
-          rw [this] at ha' ⊢
-          obtain ⟨hg', hne⟩ := prune_good s s' p hg hp hpr
-          exact ih s' hg' (fun he => absurd he hne) ha'
+          rw [this]; exact ih s' (prune_good s s' p hg hpr) ha'
   have hnew : Good new := by
-    refine ⟨new_inv, ?_, ?_, ?_⟩
+    refine ⟨new_inv, ?_, ?_, ?_, ?_⟩
     · intro x hx; cases hx
     · intro x hx; cases hx
     · intro h; exact absurd rfl h
-  exact this ops new hnew (fun _ => rfl) h
+    · intro _; rfl
+  exact this ops new hnew h
 
 /-! ## pruning -/
 
-/-- **prune_preserves** (`Get`): after a prune below the newest start, every round at or after the smallest
+/-- **prune_preserves** (`Get`): after a prune, every round at or after the smallest
 retained start (`∃ x` retained, `x ≤ r`) gets the same answer as before. -/
-theorem prune_preserves_get (s s' : Store) (p : Int) (hg : Good s) (hp : p < s.max) (h : prune s p = some s')
+theorem prune_preserves_get (s s' : Store) (p : Int) (hg : Good s) (h : prune s p = some s')
     (r : Int) (hr : ∃ x ∈ s'.rounds, x ≤ r) : get s' r = get s r := by
-  obtain ⟨hg', _⟩ := prune_good s s' p hg hp h
+  have hg' := prune_good s s' p hg h
   have hpm : p ∈ s.rounds := by
     by_cases hpm : p ∈ s.rounds
     · exact hpm
@@ -503,50 +491,60 @@ theorem prune_preserves_get (s s' : Store) (p : Int) (hg : Good s) (hp : p < s.m
 
 /-- **prune_preserves** (`GetMagicBlock`): the magic block in force for every round whose offset round is at or
 after the smallest retained start is unchanged by the prune. -/
-theorem prune_preserves_mb (s s' : Store) (p : Int) (hg : Good s) (hp : p < s.max) (h : prune s p = some s')
+theorem prune_preserves_mb (s s' : Store) (p : Int) (hg : Good s) (h : prune s p = some s')
     (rn : Int) (hr : ∃ x ∈ s'.rounds, x ≤ mbRoundOffset rn) : getMagicBlock s' rn = getMagicBlock s rn := by
   unfold getMagicBlock getMagicBlockNoOffset
-  rw [prune_preserves_get s s' p hg hp h _ hr]
+  rw [prune_preserves_get s s' p hg h _ hr]
   -- the answer is `some`, so the fallback is not consulted on either side
-  obtain ⟨hg', _⟩ := prune_good s s' p hg hp h
+  have hg' := prune_good s s' p hg h
   obtain ⟨x, hx, hxr, hgr⟩ := exists_floor s'.rounds _ hr
   have h1 := (get_is_floor s' hg' _).2 x hx hxr hgr
-  rw [← prune_preserves_get s s' p hg hp h _ hr, h1.1]
+  rw [← prune_preserves_get s s' p hg h _ hr, h1.1]
   obtain ⟨v, hv⟩ := Option.isSome_iff_exists.mp h1.2
   rw [hv]
 
 /-- also for rounds BEFORE every retained start the chain still answers (with the latest magic block), and the latest
-one is unchanged by the prune. -/
-theorem prune_preserves_latest (s s' : Store) (p : Int) (hg : Good s) (hp : p < s.max) (h : prune s p = some s') :
-    getLatest s' = getLatest s ∧ (getLatest s').isSome := by
-  obtain ⟨hg', hne'⟩ := prune_good s s' p hg hp h
+one is unchanged by a prune that retains something. -/
+theorem prune_preserves_latest (s s' : Store) (p : Int) (hg : Good s) (h : prune s p = some s')
+    (hne' : s'.rounds ≠ []) : getLatest s' = getLatest s ∧ (getLatest s').isSome ∧ s'.max = s.max := by
+  have hg' := prune_good s s' p hg h
   have hpm : p ∈ s.rounds := by
     by_cases hpm : p ∈ s.rounds
     · exact hpm
     · rw [(prune_spec s p hg.1).1 hpm] at h; cases h
   have hne : s.rounds ≠ [] := fun e => by rw [e] at hpm; cases hpm
-  obtain ⟨s'', hs'', hmx, hmem, hget, _⟩ := (prune_spec s p hg.1).2 hpm
+  obtain ⟨s'', hs'', _, hmem, hget, _⟩ := (prune_spec s p hg.1).2 hpm
   rw [h] at hs''; cases hs''
-  obtain ⟨_, _, h3, h4⟩ := getLatest_is_greatest s hg hne
-  obtain ⟨_, _, h3', h4'⟩ := getLatest_is_greatest s' hg' hne'
+  obtain ⟨hm, hle, h3, h4⟩ := getLatest_is_greatest s hg hne
+  obtain ⟨hm', hle', h3', h4'⟩ := getLatest_is_greatest s' hg' hne'
+  -- the newest start is retained, so `max` names the same start before and after
+  have h1 := (hmem s'.max).mp hm'
+  have h2 := hle s'.max h1.1
+  have h5 : s.max ∈ s'.rounds := (hmem s.max).mpr ⟨hm, by omega⟩
+  have h6 := hle' s.max h5
+  have hmx : s'.max = s.max := by omega
+  refine ⟨?_, by rw [h3']; exact h4', hmx⟩
   rw [h3', h3, hget, hmx]
-  simp only [hp, if_true, true_and]
-  rw [h3', hget, hmx] at *
-  simpa [hp] using h4
+  have : p < s.max := by omega
+  simp [this]
 
-/-! ## negation witnesses -/
+/-! ## the repaired history, boundary cases, information-only witnesses -/
 
-/-- **the full statement is false** (finding `C40:stale-max-after-prune`): `max` is not lowered when its entry is
-pruned. `Put 10; Prune 10; Put 3`: the storage holds start 3, but `Get 12` answers nothing, `GetLatest` answers
-nothing although the storage is not empty, and `GetMagicBlock 16` panics. -/
-theorem get_is_floor_fails_after_prune_all :
+/-- the history on which the code failed before commit 582e5a1 (finding `C40:stale-max-after-prune`, fixed):
+`Put 10; Prune 10; Put 3`. The storage holds start 3 and answers with it: `Get 12`, `GetLatest`, `GetMagicBlock 16`. -/
+theorem get_after_prune_all_repaired :
     let s := run new [.put 10 2, .prune 10, .put 3 3]
-    s.rounds = [3] ∧ mapGet 3 s.items = some 3 ∧ get s 12 = none ∧ getLatest s = none ∧
-    getMagicBlock s 16 = none ∧ get s 7 = some 3 ∧ ¬ MaxOK s := by
-  refine ⟨by decide, by decide, by decide, by decide, by decide, by decide, ?_⟩
-  intro h
-  have := h.2 (by decide)
-  revert this; decide
+    s.rounds = [3] ∧ s.max = 3 ∧ get s 12 = some 3 ∧ getLatest s = some 3 ∧
+    getMagicBlock s 16 = some 3 ∧ get s 7 = some 3 ∧ get s 2 = none ∧
+    (run new [.put 10 2, .prune 10]).max = 0 := by
+  decide
+
+/-- a start of 0 (`max` stays 0, the `max > 0` guard is false) is found through the scanning loop. -/
+theorem start_zero_ok :
+    let s := run new [.put 0 1]
+    s.max = 0 ∧ get s 0 = some 1 ∧ get s 5 = some 1 ∧ getLatest s = some 1 ∧ findRoundIndex s 5 = 0 ∧
+    getMagicBlock s 9 = some 1 := by
+  decide
 
 /-- the stricter reading of "pruned point" (`∀ r ≥ p`) is false of the code, as the repository's test pins:
 `Put 5; Put 10; Prune 5` — round 7 (≥ 5) was served by the entry at 5 and is served by nothing afterwards
@@ -562,12 +560,13 @@ theorem negative_start_quirk : get (run new [.put (-1) 1]) (-1) = none ∧ getLa
   decide
 
 /-! ## non-vacuity -/
-example : Admissible new [.put 151 4, .put 0 1, .put 5 2, .put 251 5, .put 51 3, .prune 5, .put 51 6] := by
-  simp [Admissible, put, new, mapGet, mapPut, mapDel, putToSlice, putRev]
+example : NonNegOps [.put 151 4, .put 0 1, .put 5 2, .put 251 5, .put 51 3, .prune 251, .put 51 6] := by
+  intro r e h; simp at h; omega
 example : (run new [.put 151 4, .put 0 1, .put 5 2, .put 251 5, .put 51 3, .prune 5, .put 51 6]).rounds = [51, 151, 251] := by
   decide
-example : Good (run new [.put 151 4, .put 0 1, .put 5 2, .put 251 5, .put 51 3, .prune 5]) :=
-  reachable_good_partial _ (by simp [Admissible, put, new, mapGet, mapPut, mapDel, putToSlice, putRev])
+example : Good (run new [.put 151 4, .put 0 1, .put 5 2, .put 251 5, .put 51 3, .prune 251, .put 51 6]) :=
+  reachable_good _ (by intro r e h; simp at h; omega)
+example : (run new [.put 151 4, .put 0 1, .put 5 2, .put 251 5, .put 51 3, .prune 251, .put 51 6]).rounds = [51] := by decide
 example : get (run new [.put 151 4, .put 0 1, .put 5 2, .put 251 5, .put 51 3]) 150 = some 3 := by decide
 example : getMagicBlock (run new [.put 501 1, .put 1001 2]) 505 = some 1 ∧
     getMagicBlock (run new [.put 501 1, .put 1001 2]) 504 = some 2 ∧
